@@ -69,10 +69,12 @@ class SecondValidationDiffers(Exception):
     pass
 
 
-def validate_table(table, sidecar, as_object=False):
+def validate_table(table, sidecar, as_object=False, labels=None):
     import pandas as pd
     from hed import Sidecar, TabularInput
     df = pd.DataFrame(table, dtype=object if as_object else str)
+    if labels is not None:
+        df.index = labels
     t = TabularInput(df, sidecar=Sidecar(io.StringIO(json.dumps(sidecar))))
     held = t.dataframe.astype(str).values.tolist()
     issues = t.validate(_G["schema"], extra_def_dicts=_G["dd"])
@@ -106,10 +108,28 @@ def execute(args):
         return ci, [("second-validation-differs", str(ex))], None
     except Exception as ex:  # noqa
         return ci, [("raises:%s" % type(ex).__name__, "validate raised %s: %s for table %s" % (type(ex).__name__, ex, table))], None
+    # the same table as a DataFrame whose row labels are not 0..n-1 (a filtered / re-read table): the same issues, each naming
+    # its row by the row's label (+2, as for the default labels)
+    if ci % 8 == 1 and n:
+        try:
+            labs = [11 + 2 * i for i in range(n)]
+            got_l = validate_table(table, sidecar, labels=labs)
+            back = [(c, sv, (r - 13) // 2 + 2 if isinstance(r, int) and (r - 13) % 2 == 0 and 0 <= (r - 13) // 2 < n else (r if r is None else -r), col)
+                    for c, sv, r, col in got_l]
+            # (column-structure warnings name the row by position: their rows are left out of this comparison)
+            back = [(c, sv, r if sv == 1 else None, col) for c, sv, r, col in back]
+            ref = [(c, sv, r if sv == 1 else None, col) for c, sv, r, col in got]
+            if sorted(back, key=repr) != sorted(ref, key=repr):
+                problems.append(("relabelled:differs", "table %s with row labels %s reports %s, with the default labels %s" % (table, labs, got_l, got)))
+        except SecondValidationDiffers as ex:
+            problems.append(("second-validation-differs", str(ex)))
+        except Exception as ex:  # noqa
+            problems.append(("relabelled:raises:%s" % type(ex).__name__, "validate raised %s: %s for table %s with row labels 11, 13, ..." % (type(ex).__name__, ex, table)))
     # the same table handed over as a DataFrame whose n/a cells are MISSING values (None / NaN, what pandas reads by default)
     try:
         tm = {k: [None if (x == "n/a" and k != "onset") else x for x in v] for k, v in table.items()}
-        got_m = validate_table(tm, sidecar, as_object=True)
+        # (a table without an n/a cell is the same table: only every fourth of those is run through the object-typed path)
+        got_m = validate_table(tm, sidecar, as_object=True) if (tm != table or ci % 4 == 0) else got
         if sorted(got_m, key=repr) != sorted(got, key=repr):
             problems.append(("missing-cells:differs", "table %s with its n/a cells given as missing values reports %s, with n/a %s" % (table, got_m, got)))
     except Exception as ex:  # noqa
